@@ -112,6 +112,16 @@ def work(task):
                     if not ok:
                         viol("prefix_consistency", ua["dbg"], "scale(%s)/scale(%s) = %.17g, prefixes %s/%s demand 10^%d" % (
                             ua["dbg"], ub["dbg"], float(ua["scale"] / ub["scale"]), ua["prefix"], ub["prefix"], ea - eb))
+                    # the same with the exponents the library itself reports for these prefixes
+                    ra, rb = ua.get("prefix_exp"), ub.get("prefix_exp")
+                    if ra is not None and rb is not None and (ra, rb) != (ea, eb):
+                        want2 = Fraction(10) ** (ra - rb)
+                        ok2 = (ua["scale"] / ub["scale"] == want2) if b == "dec" else (
+                            Fraction(repr(float(ua["scale"]))) / Fraction(repr(float(ub["scale"]))) == want2)
+                        if not ok2:
+                            viol("prefix_consistency_reported_exponent", ua["dbg"],
+                                 "scale(%s)/scale(%s) = %.17g, but si_prefix().exp() reports %d and %d for %s/%s" % (
+                                     ua["dbg"], ub["dbg"], float(ua["scale"] / ub["scale"]), ra, rb, ua["prefix"], ub["prefix"]))
                     part.cell(b, key, ua["dbg"], ub["dbg"], "prefix_consistency")
     part.counters["units_main_crate"] = n_units["quantities"]
     part.counters["units_astro"] = n_units["astro"]
